@@ -35,8 +35,12 @@ LEVEL_TEXT = ("Lean 4 proofs about the model of invoke.env.Environment (crawl co
               "correspondence check and a direct oracle on Config.load_shell_env")
 TECHNIQUE = "Lean 4 theorems over all trees/environments + regenerated cast-order table + model/implementation correspondence"
 
-KEYS = ["a", "b", "a_b", "b_a", "c", "a_b_c", "ab", "A", "B_a", "b_c", "x1", "_a", "a_", ""]
-KEYW = [6, 6, 5, 3, 4, 3, 2, 2, 1, 3, 2, 1, 1, 0.3]
+# keys are opaque strings: underscores, mixed case, dots (a dotted key spells what joining a nested path with '.' gives),
+# the prefix word itself, the empty string
+KEYS = ["a", "b", "a_b", "b_a", "c", "a_b_c", "ab", "A", "B_a", "b_c", "x1", "_a", "a_", "",
+        "a.b", "b.a", "a.b.c", "a.", ".a", "b.c", "invoke"]
+KEYW = [6, 6, 5, 3, 4, 3, 2, 2, 1, 3, 2, 1, 1, 0.3,
+        2.5, 1.5, 1, 0.5, 0.5, 1.5, 0.7]
 LEAVES = [True, False, 0, 7, -3, "s", "", "0", None, [1], ["a", "b"], [], (1,), (), 1.5]
 LEAFW = [4, 4, 2, 3, 2, 4, 2, 1, 4, 0.5, 0.5, 0.3, 0.5, 0.3, 1]
 NUMERIC = ["1", "0", "42", "-3", " 7 ", "+5", "1_000", "00", "\t8\n", "-0"]
@@ -75,10 +79,34 @@ def plant_collision(rng, t):
         d[k] = rng.choices(LEAVES, LEAFW)[0]
 
 
+def plant_dotted(rng, t):
+    """next to a nested path k1 -> k2 put the key "k1.k2" (a DIFFERENT setting with a different variable name) holding a
+    value of another kind, at the same level as k1 or at the top"""
+    spots = []
+
+    def walk(d):
+        for k1, v in d.items():
+            if isinstance(v, dict):
+                for k2 in v:
+                    spots.append((d, k1 + "." + k2, v[k2]))
+                walk(v)
+    walk(t)
+    if spots:
+        d, k, other = rng.choice(spots)
+        where = d if rng.random() < 0.7 else t
+        if k not in where:
+            if isinstance(other, dict):
+                where[k] = rng.choices(LEAVES, LEAFW)[0]
+            else:
+                where[k] = rng.choice([{"x1": 1}, {}] + [x for x in LEAVES if type(x) is not type(other)])
+
+
 def gen_case(rng):
     t = gen_tree(rng)
     if rng.random() < 0.08:
         plant_collision(rng, t)
+    if rng.random() < 0.12:
+        plant_dotted(rng, t)
     lv = list(leaves(t))
     pre = rng.choice(["invoke", "invoke", "myapp", "my_app", "x"])
     how = "default" if pre == "invoke" else rng.choice(["prefix", "env_prefix"])
@@ -614,6 +642,7 @@ def run(ctx):
         {"kind": "load", "tree": tag({"x": {"a_b": 1, "a": {"b": 2}}}), "prefix": "invoke", "how": "default", "env": {}},
         {"kind": "load", "tree": tag({"a": True, "b": False}), "prefix": "invoke", "how": "default", "env": {"INVOKE_A": "0", "INVOKE_B": "false"}},
         {"kind": "load", "tree": tag({"a": 1}), "prefix": "invoke", "how": "default", "env": {"INVOKE_B": "1", "INVOKE_A_B": "2"}},
+        {"kind": "load", "tree": tag({"a.b": 5, "a": {"b": "text"}}), "prefix": "invoke", "how": "default", "env": {"INVOKE_A_B": "7", "INVOKE_A.B": "8"}},
     ]
     results, lines = [], []
     for c in cases:
@@ -637,6 +666,12 @@ def run(ctx):
         out.case(c, nontrivial=(applied > 0 or kind == "ambiguous"))
         out.hist["kind:" + kind] += 1
         out.hist["prefix:" + c.get("how", "default")] += 1
+        dotted = [p for p, _ in leaves(before) if any("." in k for k in p)] + [p for p in sections(before) if any("." in k for k in p)]
+        out.hist["dotted_keys:%d" % min(len(dotted), 2)] += 1
+        if dotted:
+            allp = {".".join(p) for p, _ in leaves(before)} | {".".join(p) for p in sections(before)}
+            spelled = len(allp) < len(list(leaves(before))) + len(list(sections(before)))
+            out.hist["dotted_key_spells_a_nested_path:%d" % spelled] += 1
         if kind == "ok":
             out.hist["applied:%d" % min(applied, 4)] += 1
         if kind == "ambiguous":
